@@ -444,11 +444,11 @@ Inductive send_trans (c : config) (t : tid) (th : thread) (k : callid) (p : pair
 | S_TimeoutCb :
     (0 < timeout)%Z -> cb = true ->
     send_trans c t th k p timeout cb pc_sent pc_cb
-      (log (set_thread c t (with_pc th pc_cb)) [ETimeout k p])
+      (log (set_thread c t (with_pc th pc_cb)) [ETimeout k p true])
 | S_TimeoutNoCb :
     (0 < timeout)%Z -> cb = false ->
     send_trans c t th k p timeout cb pc_sent pc_cb
-      (log (set_thread c t (with_pc th pc_sent)) [EDone k p; ETimeout k p]).
+      (log (set_thread c t (with_pc th pc_sent)) [EDone k p; ETimeout k p false]).
 
 Inductive trans (c : config) (t : tid) (th : thread) : config -> Prop :=
 | T_PubStart cl rest sl w o evs ob :
@@ -1733,3 +1733,14 @@ Proof.
   - destruct Hi as [Hi|Hi]; [congruence|]. apply IH; auto.
     unfold close_one. destruct (nth_error chs x); [|exact Hc]. rewrite nth_error_upd_neq by exact N. exact Hc.
 Qed.
+
+(* A WithOnly view is a snapshot with its own lock: after the parent has
+   removed (closed) the subscription, a publish on the stale view sends on the
+   closed channel, sequentially, even with a Sync variant. This is why the
+   no-panic theorems require that no other PubSub lists a channel at its close
+   step (or that there is no WithOnly). *)
+Definition stale_view_progs : list (list call) :=
+  [[CSubBuf 0 1%Z; CWithOnly 0 (Some 0); CUnsub 0 (Some 0); CPubOne Sync 1 1%Z]].
+Lemma stale_view_panic_reachable :
+  c_panic (run (init 0%Z false 0%Z stale_view_progs) (repeat (0, Plain) 9)) = Some SendOnClosed.
+Proof. vm_compute. reflexivity. Qed.
